@@ -420,6 +420,14 @@ def run(ctx: Ctx, rep: Report, tier: str) -> None:
     c19.run(ctx, sub, tier)
     rep.absorb(sub, "R02.2")
     field_isolation(ctx, rep, "R02.7")
+    # R02.11 a converted entry is re-parsed from text that still carries the source platform's protocol names (the
+    # containers stamp the new platform on their items before converting them): the reader accepts every platform's names
+    from .c09 import protocol_reader_writer
+
+    sub = Report("C02")
+    sub.rule("R09.2")
+    protocol_reader_writer(ctx, sub)
+    rep.absorb(sub, "R02.11")
     r02_3(ctx, rep)
     # R02.4 writer keywords belong to the target platform's reader; R02.6 re-typing tests
     from .c01 import classification_guards
